@@ -421,7 +421,7 @@ fn random<B: Backend>(nworlds: usize, per_world: usize, scratch: &str, worlds_ou
     use std::io::Write;
     let mut rng = Rng::from_env();
     let mut wf = std::fs::File::create(worlds_out).expect("worlds out");
-    let routes: Vec<&str> = vec!["/*", "/static/*", "/dür/*", "/a/b/*", "/%2e/*", "/s*"];
+    let routes: Vec<&str> = vec!["/*", "/static/*", "/dür/*", "/dü*", "/a/b/*", "/%2e/*", "/s*"];
     for wi in 1..=nworlds {
         let (root, nodes) = gen_world(&mut rng, wi);
         let nodes_json: Vec<Value> = nodes.iter().map(|n| json!({"p": n.p, "k": n.k, "id": n.id})).collect();
